@@ -306,7 +306,7 @@ impl Property for C20 {
         vec!["sample_rate >= player_frequency (at least one sample per frame); player_frequency >= 1", "in stereo a buffer of length 1 cannot hold a sample pair: play() must return 0 and leave the stream untouched"]
     }
     fn expected_probes(&self) -> Vec<&'static str> {
-        vec!["r13_ff_frame", "stereo_odd_buffer", "stereo_len1_buffer", "zero_frames", "end_reported", "buffer_spans_frames", "load_generated", "load_repo_file", "typed_i8", "typed_i16", "typed_i32", "typed_f32", "position_commands"]
+        vec!["r13_ff_frame", "stereo_odd_buffer", "stereo_len1_buffer", "zero_frames", "end_reported", "buffer_spans_frames", "load_generated", "load_repo_file", "typed_i8", "typed_i16", "typed_i32", "typed_f32", "position_commands", "load_after_a_failed_load", "reader_not_at_position_zero"]
     }
 
     fn gen(&self, rng: &mut Rng, tier: Tier, idx: u64) -> Scenario {
@@ -393,6 +393,8 @@ impl Property for C20 {
             sc.set("ym", rng.bool() as i64);
             sc.set("pf", rng.range(1, 255));
             sc.set("strlen", *rng.pick(&[0i64, 1, 10, 250, 251, 255, 256, 257, 600]));
+            sc.set("prior_failed", if rng.chance(1, 4) { rng.range(1, 1000) } else { 0 });
+            sc.set("lead", if rng.chance(1, 4) { *rng.pick(&[1i64, 16, 17, 100, 4096]) } else { 0 });
             return sc;
         }
         if kind == 0 && rng.chance(1, 24) {
@@ -716,7 +718,27 @@ impl C20 {
         let ym = sc.get("ym") != 0;
         let pf = sc.get("pf").clamp(1, 255) as u8;
         let file = build_vtx_file(ym, stereo, 3, 1_750_000, pf, 2001, strings, t);
-        let v = match Vtx::load(std::io::Cursor::new(&file[..])) {
+        // history of the thread: another, damaged file (a long one, cut inside its packed data) was offered before
+        // and refused - nothing of that attempt may show in this load
+        let prior = sc.get("prior_failed");
+        if prior != 0 {
+            ctx.probe("load_after_a_failed_load");
+            let junk: Vec<u8> = (0..(600 + (prior as usize % 400)) * 14).map(|i| (i * 31 + 7) as u8).collect();
+            let other = build_vtx_file(false, 1, 0, 1_773_400, 50, 1999, [b"x", b"y", b"", b"z", b""], &junk);
+            let cut = other.len() * 3 / 4;
+            let _ = Vtx::load(std::io::Cursor::new(&other[..cut]));
+        }
+        // the file may sit inside a larger stream (a container, an archive member): the reader is handed over
+        // positioned at its first byte, not at 0
+        let lead = sc.get("lead").clamp(0, 4096) as usize;
+        let mut stream: Vec<u8> = (0..lead).map(|i| (i * 7 + 3) as u8).collect();
+        stream.extend_from_slice(&file);
+        let mut cur = std::io::Cursor::new(&stream[..]);
+        cur.set_position(lead as u64);
+        if lead > 0 {
+            ctx.probe("reader_not_at_position_zero");
+        }
+        let v = match Vtx::load(cur) {
             Ok(v) => v,
             Err(e) => return Err(Fail::new("C20.load_generated", &format!("strlen={}", strlen), format!("a well-formed generated VTX file ({} frames, author string of {} bytes) was rejected: {:?}", frames, strlen, e))),
         };
